@@ -1,8 +1,8 @@
 SPECIFICATION Spec
 CONSTANTS
-  Kind = "FPCal"
+  Kind = "EMG"
   NI = 2
-  MaxItems = 2
+  MaxItems = 3
   MaxChan = 3
   Labels = {1, 2}
   Chans = {1, 2}
